@@ -14,9 +14,11 @@ RULE = ("constructor: every multiset of <=3 (quick; thorough <=4) (start,end) pa
         "sampled canonical operands. distinct = distinct (multiset of pairs, scale); non-trivial = at least one pair")
 PROVED = ("mk_canonical: for ANY finite list of pairs (any order, any degeneracy) the model constructor returns "
           "end>start, end[i]<start[i+1], starts strictly increasing (fixIset_canonical by loop invariant + sortedness of "
-          "insertion sort); union/intersect/diff_canonical (they re-enter the constructor)")
-NOT_PROVED = ("coverage clause (covers exactly the union up to the trimmed microsecond): oracle + correspondence only; "
-              "closure for split/merge_close/drop/index/time_span/find_support: oracle on the implementation only")
+          "insertion sort); union/intersect/diff_canonical (they re-enter the constructor); coverage clause: mk_sound (ANY input: every "
+          "instant of the result lies in an input pair, although starts and ends are sorted independently - counting argument) and "
+          "mk_complete (pairs with start <= end: every instant of an input pair that is not an endpoint and not in the microsecond before "
+          "a start lies in the result; zero-length inputs vanish)")
+NOT_PROVED = ("closure for split/merge_close/drop/index/time_span/find_support: oracle on the implementation only")
 ASSUMPTIONS = ["np.sort returns a sorted permutation", "float endpoints compare like their integer-ns images (DESIGN 2.3)"]
 
 SCALES = [500, 1000, 2000, 10**6, 1953125, 10**9]
